@@ -33,7 +33,7 @@ Comb ==
        IN /\ Len(rs) = Ev.m
           /\ Laws(rs)                                                       \* the exact values obey the algebraic laws
           /\ Matches(Ev.T, Ev.wv, WVar(rs))
-          /\ Matches(Ev.T, Ev.we, WEq(rs))
+          /\ IF \A i \in 1 .. Len(rs) : rs[i].N > 0 THEN Matches(Ev.T, Ev.we, WEq(rs)) ELSE TRUE   \* (the estimate of a result without calls is 0 / 0)
           /\ IF Len(rs) = 1 THEN Ev.chiTag = "inf"                             \* infinite for one result
              ELSE IF \E i \in 1 .. Len(rs) : rs[i].nz = 0 THEN TRUE         \* entries without information: chi^2 not specified
              ELSE Ev.chiTag = "fin" /\ Ev.chi >= 0 /\ Near(Ev.chi, 4096, chi[2], 4 + (IF Ev.T = "float" THEN 64 ELSE 0))
@@ -41,12 +41,13 @@ Comb ==
 CombHead ==
     /\ l <= TraceLen /\ Ev.e = "CombHead"
     /\ LET rs == SeqOf(Ev.rs) IN
-       /\ Matches(Ev.T, Ev.out, IF Ev.which = 0 THEN WVar(rs) ELSE WEq(rs))
+       /\ IF Ev.which = 1 /\ \E i \in 1 .. Len(rs) : rs[i].N = 0 THEN TRUE ELSE Matches(Ev.T, Ev.out, IF Ev.which = 0 THEN WVar(rs) ELSE WEq(rs))
        /\ (Ev.m > 0) => (Ev.ndist = 2 /\ Ev.nbins0 = 3 /\ Ev.nbins1 = 4)   \* every bin of every distribution is present
     /\ l' = l + 1
 CombBin ==
     /\ l <= TraceLen /\ Ev.e = "CombBin"
-    /\ LET rs == SeqOf(Ev.rs) IN Matches(Ev.T, Ev.out, IF Ev.which = 0 THEN WVar(rs) ELSE WEq(rs))   \* the same rule, bin by bin
+    /\ LET rs == SeqOf(Ev.rs) IN IF Ev.which = 1 /\ \E i \in 1 .. Len(rs) : rs[i].N = 0 THEN TRUE ELSE
+                             Matches(Ev.T, Ev.out, IF Ev.which = 0 THEN WVar(rs) ELSE WEq(rs))   \* the same rule, bin by bin
     /\ l' = l + 1
 \* results of runs with more than 2^32 calls each: the counters are added without truncation (20-bit limbs) and the
 \* conversion between (value, error) and (sum, sum of squares) still round-trips
